@@ -224,5 +224,640 @@ theorem setCoord_cong : ∀ (L P : List ℚ) (d : Nat) (x : ℚ), P.length = L.l
       ⟨Cong.refl l p, setCoord_cong L P d x (by simpa using h)
         (fun hd hd' => hx (by simpa using hd) (by simpa using hd'))⟩
 
+/-! ### list lemmas -/
+
+/-- "exactly one element satisfies `p`", as a statement about indices -/
+theorem filter_length_one_iff {β : Type} (p : β → Bool) : ∀ (l : List β),
+    (l.filter p).length = 1 ↔ ∃ a, a < l.length ∧ ∀ i u, l[i]? = some u → (p u = true ↔ i = a)
+  | [] => by simp
+  | x :: l => by
+      by_cases hx : p x = true
+      · simp only [List.filter_cons_of_pos hx, List.length_cons, Nat.add_eq_right, List.length_eq_zero_iff,
+          List.filter_eq_nil_iff]
+        constructor
+        · intro h
+          refine ⟨0, by omega, ?_⟩
+          intro i u hi
+          cases i with
+          | zero => simp at hi; subst hi; simp [hx]
+          | succ i =>
+              have : u ∈ l := List.mem_of_getElem? (by simpa using hi)
+              simp [h u this]
+        · rintro ⟨a, -, h⟩ u hu
+          have ha : a = 0 := ((h 0 x (by simp)).mp hx).symm
+          subst ha
+          obtain ⟨i, hi⟩ := List.mem_iff_getElem?.mp hu
+          have := h (i + 1) u (by simpa using hi)
+          simpa using this
+      · have hx' : p x = false := by simpa using hx
+        rw [List.filter_cons_of_neg hx, filter_length_one_iff p l]
+        constructor
+        · rintro ⟨a, ha, h⟩
+          refine ⟨a + 1, by simpa using ha, ?_⟩
+          intro i u hi
+          cases i with
+          | zero => simp at hi; subst hi; simp [hx']
+          | succ i => simpa using h i u (by simpa using hi)
+        · rintro ⟨a, ha, h⟩
+          cases a with
+          | zero => exact absurd ((h 0 x (by simp)).mpr rfl) hx
+          | succ a =>
+              refine ⟨a, by simpa using ha, ?_⟩
+              intro i u hi
+              simpa using h (i + 1) u (by simpa using hi)
+
+theorem forall_mem_modify {β : Type} {P : β → Prop} (f : β → β) (l : List β) (i : Nat)
+    (h : ∀ u ∈ l, P u) (hf : ∀ u, l[i]? = some u → P (f u)) : ∀ u ∈ l.modify i f, P u := by
+  intro u hu
+  obtain ⟨j, hj⟩ := List.mem_iff_getElem?.mp hu
+  rw [List.getElem?_modify] at hj
+  cases hlj : l[j]? with
+  | none => simp [hlj] at hj
+  | some w =>
+      have hw : w ∈ l := List.mem_of_getElem? hlj
+      simp only [hlj, Option.map_eq_map, Option.map_some, Option.some.injEq] at hj
+      subst hj
+      split
+      · next hij => subst hij; exact hf w hlj
+      · exact h w hw
+
+/-! ### units: well-formedness, time slice of a unit -/
+
+/-- a unit of an `n`-dimensional system: `n` coordinates, a velocity iff a time stamp, `n` velocity components -/
+def WFU (n : Nat) (u : PUnit ℚ) : Prop :=
+  u.pos.length = n ∧ u.vel.isSome = u.ts.isSome ∧ ∀ v, u.vel = some v → v.length = n
+
+/-- well-formed global state in the box `L` -/
+def WF (L : List ℚ) (us : List (PUnit ℚ)) : Prop := ∀ u ∈ us, WFU L.length u
+
+theorem timeSlice_vel (L : List ℚ) (t : Time ℚ) (u : PUnit ℚ) : (timeSlice Ops.rat L t u).vel = u.vel := by
+  unfold timeSlice; split
+  · next h _ => simp [h]
+  · rfl
+
+theorem timeSlice_isMoving (L : List ℚ) (t : Time ℚ) (u : PUnit ℚ) :
+    isMoving (timeSlice Ops.rat L t u) = isMoving u := by
+  simp [isMoving, timeSlice_vel]
+
+theorem timeSlice_of_rest (L : List ℚ) (t : Time ℚ) (u : PUnit ℚ) (h : u.vel = none) :
+    timeSlice Ops.rat L t u = u := by
+  unfold timeSlice; rw [h]
+
+theorem timeSlice_of_moving (L : List ℚ) (t : Time ℚ) (u : PUnit ℚ) {v : List ℚ} {s : Time ℚ}
+    (hv : u.vel = some v) (hs : u.ts = some s) :
+    timeSlice Ops.rat L t u = { pos := sliceVec Ops.rat L u.pos v (Time.sub t s), vel := some v, ts := some t } := by
+  unfold timeSlice; rw [hv, hs]
+
+theorem timeSlice_wfu (L : List ℚ) (t : Time ℚ) (u : PUnit ℚ) (h : WFU L.length u) :
+    WFU L.length (timeSlice Ops.rat L t u) := by
+  obtain ⟨h1, h2, h3⟩ := h
+  cases hv : u.vel with
+  | none => rw [timeSlice_of_rest L t u hv]; exact ⟨h1, h2, h3⟩
+  | some v =>
+      cases hs : u.ts with
+      | none => simp [hv, hs] at h2
+      | some s =>
+          rw [timeSlice_of_moving L t u hv hs]
+          refine ⟨sliceVec_length L u.pos v _ h1 (h3 v hv), rfl, ?_⟩
+          intro w hw; cases hw; exact h3 v hv
+
+theorem stop_wfu {n : Nat} (u : PUnit ℚ) (h : WFU n u) : WFU n (stop u) :=
+  ⟨h.1, rfl, fun v hv => by simp [stop] at hv⟩
+
+/-! ### the chain machine, pointwise -/
+open JF.C14
+
+theorem step_length (L : List ℚ) (us : List (PUnit ℚ)) (e : Ev ℚ) : (step Ops.rat L us e).length = us.length := by
+  cases e <;> simp only [step] <;> (repeat' split) <;> simp [List.length_modify]
+
+/-- position of a unit after an event, as a function of the unit before the event alone -/
+def posAfter (L : List ℚ) (e : Ev ℚ) (u : PUnit ℚ) : List ℚ :=
+  match e with
+  | .start _ _ _ => u.pos
+  | .snap t d x => if isMoving u then setCoord (timeSlice Ops.rat L t u).pos d x else u.pos
+  | .keep t => (timeSlice Ops.rat L t u).pos
+  | .lift t _ => (timeSlice Ops.rat L t u).pos
+  | .endOfChain t _ _ => (timeSlice Ops.rat L t u).pos
+
+theorem step_pos (L : List ℚ) (us : List (PUnit ℚ)) (e : Ev ℚ) (i : Nat) :
+    (step Ops.rat L us e)[i]?.map (·.pos) = us[i]?.map (posAfter L e) := by
+  cases e <;> simp only [step] <;> (repeat' split) <;>
+    simp only [List.getElem?_modify, List.getElem?_map] <;> cases us[i]? <;>
+    simp [posAfter, stop, timeSlice_isMoving] <;> (repeat' split) <;> simp_all [timeSlice_of_rest, isMoving]
+
+
+def ChainI (L : List ℚ) (c : ℚ) (t : Time ℚ) (us : List (PUnit ℚ)) (a : Nat) : Prop :=
+  a < us.length ∧ ∀ i u, us[i]? = some u →
+    WFU L.length u ∧ InBox L u.pos ∧
+      (if i = a then ∃ v, u.vel = some v ∧ normSq v = c ∧ u.ts = some t else u.vel = none)
+
+theorem ChainI.activeIdx {L : List ℚ} {c : ℚ} {t : Time ℚ} {us : List (PUnit ℚ)} {a : Nat}
+    (h : ChainI L c t us a) : activeIdx us = some a := by
+  obtain ⟨ha, h⟩ := h
+  unfold Kin.activeIdx
+  rw [List.findIdx?_eq_some_iff_getElem]
+  refine ⟨ha, ?_, ?_⟩
+  · obtain ⟨-, -, h3⟩ := h a us[a] (by simp)
+    simp only [if_true] at h3
+    obtain ⟨v, hv, -⟩ := h3
+    simp [isMoving, hv]
+  · intro j hj
+    obtain ⟨-, -, h3⟩ := h j us[j] (by simp [show j < us.length by omega])
+    rw [if_neg (by omega)] at h3
+    simp [isMoving, h3]
+
+theorem ChainI.slice {L : List ℚ} {c : ℚ} {t : Time ℚ} {us : List (PUnit ℚ)} {a : Nat}
+    (h : ChainI L c t us a) (hL : PosBox L) (t' : Time ℚ) :
+    ChainI L c t' (us.map (timeSlice Ops.rat L t')) a := by
+  obtain ⟨ha, h⟩ := h
+  refine ⟨by simpa using ha, ?_⟩
+  intro i u' hi
+  rw [List.getElem?_map] at hi
+  cases hu : us[i]? with
+  | none => simp [hu] at hi
+  | some u =>
+      simp only [hu, Option.map_some, Option.some.injEq] at hi
+      subst hi
+      obtain ⟨h1, h2, h3⟩ := h i u hu
+      by_cases hia : i = a
+      · simp only [hia, if_true] at h3 ⊢
+        obtain ⟨v, hv, hc, hs⟩ := h3
+        rw [timeSlice_of_moving L t' u hv hs]
+        exact ⟨timeSlice_of_moving L t' u hv hs ▸ timeSlice_wfu L t' u h1,
+          sliceVec_inBox L u.pos v _ hL h1.1 (h1.2.2 v hv), v, rfl, hc, rfl⟩
+      · simp only [hia, if_false] at h3 ⊢
+        rw [timeSlice_of_rest L t' u h3]; exact ⟨h1, h2, h3⟩
+
+theorem ChainI.get {L : List ℚ} {c : ℚ} {t : Time ℚ} {us : List (PUnit ℚ)} {a : Nat}
+    (h : ChainI L c t us a) : ∃ ua v, us[a]? = some ua ∧ WFU L.length ua ∧ InBox L ua.pos ∧
+      ua.vel = some v ∧ normSq v = c ∧ ua.ts = some t := by
+  obtain ⟨ha, h⟩ := h
+  obtain ⟨h1, h2, h3⟩ := h a us[a] (by simp)
+  simp only [if_true] at h3
+  obtain ⟨v, hv, hc, hs⟩ := h3
+  exact ⟨us[a], v, by simp, h1, h2, hv, hc, hs⟩
+
+theorem ChainI.step_keep {L : List ℚ} {c : ℚ} {t : Time ℚ} {us : List (PUnit ℚ)} {a : Nat}
+    (h : ChainI L c t us a) (hL : PosBox L) (t' : Time ℚ) :
+    ChainI L c t' (step Ops.rat L us (.keep t')) a := h.slice hL t'
+
+theorem ChainI.step_snap {L : List ℚ} {c : ℚ} {t : Time ℚ} {us : List (PUnit ℚ)} {a : Nat}
+    (h : ChainI L c t us a) (hL : PosBox L) (t' : Time ℚ) (d : Nat) (x : ℚ)
+    (hx : ∀ hd : d < L.length, 0 ≤ x ∧ x < L[d]) :
+    ChainI L c t' (step Ops.rat L us (.snap t' d x)) a := by
+  obtain ⟨ha, h⟩ := h.slice hL t'
+  simp only [step]
+  refine ⟨by simpa using ha, ?_⟩
+  intro i u' hi
+  rw [List.getElem?_map] at hi
+  cases hu : (us.map (timeSlice Ops.rat L t'))[i]? with
+  | none => simp [hu] at hi
+  | some u =>
+      simp only [hu, Option.map_some, Option.some.injEq] at hi
+      subst hi
+      obtain ⟨h1, h2, h3⟩ := h i u hu
+      split
+      · exact ⟨⟨by simp [setCoord_length, h1.1], h1.2⟩, setCoord_inBox L u.pos d x h2 hx, h3⟩
+      · exact ⟨h1, h2, h3⟩
+
+theorem ChainI.step_lift {L : List ℚ} {c : ℚ} {t : Time ℚ} {us : List (PUnit ℚ)} {a : Nat}
+    (h : ChainI L c t us a) (hL : PosBox L) (t' : Time ℚ) (b : Nat) (hb : b < us.length) :
+    ChainI L c t' (step Ops.rat L us (.lift t' b)) b := by
+  have hs := h.slice hL t'
+  obtain ⟨ua, v, hua, wa, ba, hv, hc, hts⟩ := hs.get
+  simp only [step, hs.activeIdx, hua]
+  by_cases hab : a = b
+  · subst hab; simpa using hs
+  · have : (a == b) = false := by simpa using hab
+    simp only [this, Bool.false_eq_true, if_false]
+    obtain ⟨-, h⟩ := hs
+    refine ⟨by simpa [List.length_modify] using hb, ?_⟩
+    intro i u' hi
+    simp only [List.getElem?_modify] at hi
+    cases hu : (us.map (timeSlice Ops.rat L t'))[i]? with
+    | none => simp [hu] at hi
+    | some u =>
+        simp only [hu, Option.map_eq_map, Option.map_some, Option.some.injEq] at hi
+        subst hi
+        obtain ⟨h1, h2, h3⟩ := h i u hu
+        by_cases hib : i = b
+        · subst hib
+          have hne : ¬ a = i := hab
+          have hne' : ¬ i = a := fun e => hab e.symm
+          simp only [hne, hne', if_true, if_false] at h3 ⊢
+          exact ⟨⟨h1.1, by simp [hv, hts], fun w hw => wa.2.2 w (by rw [← hw])⟩, h2, v, hv, hc, hts⟩
+        · have hne : ¬ b = i := fun e => hib e.symm
+          simp only [hne, hib, if_false]
+          by_cases hia : i = a
+          · subst hia
+            simp only [if_true]
+            exact ⟨stop_wfu u h1, h2, rfl⟩
+          · have hne' : ¬ a = i := fun e => hia e.symm
+            simp only [hia, hne', if_false] at h3 ⊢
+            exact ⟨h1, h2, h3⟩
+
+theorem ChainI.step_endOfChain {L : List ℚ} {c : ℚ} {t : Time ℚ} {us : List (PUnit ℚ)} {a : Nat}
+    (h : ChainI L c t us a) (hL : PosBox L) (t' : Time ℚ) (b : Nat) (v : List ℚ) (hb : b < us.length)
+    (hv : v.length = L.length) (hc : normSq v = c) :
+    ChainI L c t' (step Ops.rat L us (.endOfChain t' b v)) b := by
+  have hs := h.slice hL t'
+  simp only [step, hs.activeIdx]
+  obtain ⟨-, h⟩ := hs
+  by_cases hab : a = b
+  · subst hab
+    simp only [beq_self_eq_true, if_true]
+    refine ⟨by simpa [List.length_modify] using hb, ?_⟩
+    intro i u' hi
+    simp only [List.getElem?_modify] at hi
+    cases hu : (us.map (timeSlice Ops.rat L t'))[i]? with
+    | none => simp [hu] at hi
+    | some u =>
+        simp only [hu, Option.map_eq_map, Option.map_some, Option.some.injEq] at hi
+        subst hi
+        obtain ⟨h1, h2, h3⟩ := h i u hu
+        by_cases hia : i = a
+        · subst hia
+          simp only [if_true] at h3 ⊢
+          obtain ⟨w, hw, -, hts⟩ := h3
+          exact ⟨⟨h1.1, by simp [hts], fun w' hw' => by cases hw'; exact hv⟩, h2, v, rfl, hc, hts⟩
+        · have hne' : ¬ a = i := fun e => hia e.symm
+          simp only [hia, hne', if_false] at h3 ⊢
+          exact ⟨h1, h2, h3⟩
+  · have : (a == b) = false := by simpa using hab
+    simp only [this, Bool.false_eq_true, if_false]
+    refine ⟨by simpa [List.length_modify] using hb, ?_⟩
+    intro i u' hi
+    simp only [List.getElem?_modify] at hi
+    cases hu : (us.map (timeSlice Ops.rat L t'))[i]? with
+    | none => simp [hu] at hi
+    | some u =>
+        simp only [hu, Option.map_eq_map, Option.map_some, Option.some.injEq] at hi
+        subst hi
+        obtain ⟨h1, h2, h3⟩ := h i u hu
+        by_cases hib : i = b
+        · subst hib
+          have hne : ¬ a = i := hab
+          simp only [hne, if_true, if_false]
+          exact ⟨⟨h1.1, rfl, fun w' hw' => by cases hw'; exact hv⟩, h2, v, rfl, hc, trivial⟩
+        · have hne : ¬ b = i := fun e => hib e.symm
+          simp only [hne, hib, if_false]
+          by_cases hia : i = a
+          · subst hia
+            simp only [if_true]
+            exact ⟨stop_wfu u h1, h2, rfl⟩
+          · have hne' : ¬ a = i := fun e => hia e.symm
+            simp only [hia, hne', if_false] at h3 ⊢
+            exact ⟨h1, h2, h3⟩
+
+theorem ChainI.of_start {L : List ℚ} {us : List (PUnit ℚ)} (hwf : WF L us) (hbox : ∀ u ∈ us, InBox L u.pos)
+    (hrest : ∀ u ∈ us, u.vel = none) (t : Time ℚ) (a : Nat) (v : List ℚ) (ha : a < us.length)
+    (hv : v.length = L.length) :
+    ChainI L (normSq v) t (step Ops.rat L us (.start t a v)) a := by
+  simp only [step]
+  refine ⟨by simpa [List.length_modify] using ha, ?_⟩
+  intro i u' hi
+  simp only [List.getElem?_modify] at hi
+  cases hu : us[i]? with
+  | none => simp [hu] at hi
+  | some u =>
+      simp only [hu, Option.map_eq_map, Option.map_some, Option.some.injEq] at hi
+      subst hi
+      have hm : u ∈ us := List.mem_of_getElem? hu
+      by_cases hia : i = a
+      · subst hia
+        simp only [if_true]
+        exact ⟨⟨(hwf u hm).1, rfl, fun w' hw' => by cases hw'; exact hv⟩, hbox u hm, v, rfl, rfl, trivial⟩
+      · have hne' : ¬ a = i := fun e => hia e.symm
+        simp only [hia, hne', if_false]
+        exact ⟨hwf u hm, hbox u hm, hrest u hm⟩
+
+/-- the chain invariant: one moving unit, its squared speed is `c`, its time stamp is `t`, everything in the box -/
+structure Chain (L : List ℚ) (c : ℚ) (t : Time ℚ) (us : List (PUnit ℚ)) : Prop where
+  wf : WF L us
+  inBox : ∀ u ∈ us, InBox L u.pos
+  one : (us.filter isMoving).length = 1
+  speed : ∀ u ∈ us, ∀ v, u.vel = some v → normSq v = c
+  stamp : ∀ u ∈ us, isMoving u = true → u.ts = some t
+
+theorem chain_iff (L : List ℚ) (c : ℚ) (t : Time ℚ) (us : List (PUnit ℚ)) :
+    Chain L c t us ↔ ∃ a, ChainI L c t us a := by
+  constructor
+  · rintro ⟨hwf, hbox, hone, hsp, hst⟩
+    obtain ⟨a, ha, h⟩ := (filter_length_one_iff isMoving us).mp hone
+    refine ⟨a, ha, ?_⟩
+    intro i u hu
+    have hm : u ∈ us := List.mem_of_getElem? hu
+    refine ⟨hwf u hm, hbox u hm, ?_⟩
+    have := h i u hu
+    by_cases hia : i = a
+    · simp only [hia, if_true]
+      have hmv : isMoving u = true := this.mpr hia
+      cases hv : u.vel with
+      | none => simp [isMoving, hv] at hmv
+      | some v => exact ⟨v, rfl, hsp u hm v hv, hst u hm hmv⟩
+    · simp only [hia, if_false]
+      have hmv : ¬ isMoving u = true := fun e => hia (this.mp e)
+      cases hv : u.vel with
+      | none => rfl
+      | some v => simp [isMoving, hv] at hmv
+  · rintro ⟨a, ha, h⟩
+    refine ⟨?_, ?_, ?_, ?_, ?_⟩
+    · intro u hu; obtain ⟨i, hi⟩ := List.mem_iff_getElem?.mp hu; exact (h i u hi).1
+    · intro u hu; obtain ⟨i, hi⟩ := List.mem_iff_getElem?.mp hu; exact (h i u hi).2.1
+    · refine (filter_length_one_iff isMoving us).mpr ⟨a, ha, ?_⟩
+      intro i u hi
+      have := (h i u hi).2.2
+      by_cases hia : i = a
+      · simp only [hia, if_true] at this ⊢
+        obtain ⟨v, hv, -⟩ := this
+        simp [isMoving, hv]
+      · simp only [hia, if_false] at this ⊢
+        simp [isMoving, this]
+    · intro u hu v hv; obtain ⟨i, hi⟩ := List.mem_iff_getElem?.mp hu
+      have := (h i u hi).2.2
+      by_cases hia : i = a
+      · simp only [hia, if_true] at this
+        obtain ⟨w, hw, hc, -⟩ := this
+        rw [hv] at hw; cases hw; exact hc
+      · simp only [hia, if_false] at this; rw [hv] at this; cases this
+    · intro u hu hmv; obtain ⟨i, hi⟩ := List.mem_iff_getElem?.mp hu
+      have := (h i u hi).2.2
+      by_cases hia : i = a
+      · simp only [hia, if_true] at this
+        obtain ⟨w, -, -, hts⟩ := this
+        exact hts
+      · simp only [hia, if_false] at this; simp [isMoving, this] at hmv
+
+/-- admissibility of a committed event in the global state `us` -/
+def Adm (L : List ℚ) (us : List (PUnit ℚ)) : Ev ℚ → Prop
+  | .start _ a v => a < us.length ∧ v.length = L.length ∧ ∀ u ∈ us, u.vel = none
+  | .keep _ => True
+  | .snap _ d x => ∀ h : d < L.length, 0 ≤ x ∧ x < L[d]
+  | .lift _ b => b < us.length
+  | .endOfChain _ a v => a < us.length ∧ v.length = L.length ∧
+      ∀ u ∈ us, ∀ v0, u.vel = some v0 → normSq v = normSq v0
+
+/-- admissibility of a sequence of events, each in the state the previous ones produce -/
+def AdmRun (L : List ℚ) : List (PUnit ℚ) → List (Ev ℚ) → Prop
+  | _, [] => True
+  | us, e :: es => Adm L us e ∧ AdmRun L (step Ops.rat L us e) es
+
+/-- time of the last event of a list (`t` for the empty list) -/
+def lastTime (t : Time ℚ) : List (Ev ℚ) → Time ℚ
+  | [] => t
+  | e :: es => lastTime e.time es
+
+theorem lastTime_eq : ∀ (t : Time ℚ) (es : List (Ev ℚ)), lastTime t es = ((es.map Ev.time).getLast?).getD t
+  | _, [] => rfl
+  | t, [e] => by simp [lastTime]
+  | t, e :: e' :: es => by
+      have := lastTime_eq e.time (e' :: es)
+      simp only [lastTime] at this ⊢
+      rw [this]; simp [List.getLast?_cons]
+
+theorem ChainI.vels {c : ℚ} {t : Time ℚ} {L : List ℚ} : ∀ {us : List (PUnit ℚ)} {a : Nat}, ChainI L c t us a →
+    ∃ v, normSq v = c ∧ us.filterMap (·.vel) = [v]
+  | [], _, h => absurd h.1 (by simp)
+  | u :: us, 0, ⟨_, h⟩ => by
+      obtain ⟨-, -, h3⟩ := h 0 u (by simp)
+      simp only [if_true] at h3
+      obtain ⟨v, hv, hc, -⟩ := h3
+      refine ⟨v, hc, ?_⟩
+      rw [List.filterMap_cons_some hv]
+      congr 1
+      rw [List.filterMap_eq_nil_iff]
+      intro w hw
+      obtain ⟨i, hi⟩ := List.mem_iff_getElem?.mp hw
+      have := (h (i + 1) w (by simpa using hi)).2.2
+      simpa using this
+  | u :: us, a + 1, ⟨ha, h⟩ => by
+      have h0 := (h 0 u (by simp)).2.2
+      simp only [show ¬ (0 = a + 1) by omega, if_false] at h0
+      have : ChainI L c t us a := ⟨by simpa using ha, fun i w hi => by
+        have := h (i + 1) w (by simpa using hi)
+        simpa using this⟩
+      obtain ⟨v, hc, hv⟩ := this.vels
+      exact ⟨v, hc, by rw [List.filterMap_cons_none h0, hv]⟩
+
+
+theorem ChainI.vels_at {c : ℚ} {t : Time ℚ} {L : List ℚ} {us : List (PUnit ℚ)} {a i : Nat} (h : ChainI L c t us a)
+    {u : PUnit ℚ} {w : List ℚ} (hu : us[i]? = some u) (hw : u.vel = some w) : us.filterMap (·.vel) = [w] := by
+  obtain ⟨v, -, hv⟩ := h.vels
+  have : w ∈ us.filterMap (·.vel) := List.mem_filterMap.mpr ⟨u, List.mem_of_getElem? hu, hw⟩
+  rw [hv] at this
+  rw [hv, List.mem_singleton.mp this]
+
+/-- the velocity found at `b` after the pair event is the velocity the active unit had before -/
+theorem ChainI.lift_vel {L : List ℚ} {c : ℚ} {t : Time ℚ} {us : List (PUnit ℚ)} {a : Nat}
+    (h : ChainI L c t us a) (hL : PosBox L) (t' : Time ℚ) (b : Nat) (hb : b < us.length) :
+    ((step Ops.rat L us (.lift t' b))[b]?).bind (·.vel) = (us[a]?).bind (·.vel) := by
+  have hs := h.slice hL t'
+  obtain ⟨ua, v, hua, wa, ba, hv, hc, hts⟩ := hs.get
+  have hva : (us[a]?).bind (·.vel) = some v := by
+    rw [List.getElem?_map] at hua
+    cases hu : us[a]? with
+    | none => simp [hu] at hua
+    | some u =>
+        simp only [hu, Option.map_some, Option.some.injEq] at hua
+        subst hua
+        rw [timeSlice_vel] at hv
+        simp [hv]
+  rw [hva]
+  simp only [step, hs.activeIdx, hua]
+  by_cases hab : a = b
+  · subst hab; simp [hua, hv]
+  · have : (a == b) = false := by simpa using hab
+    simp only [this, Bool.false_eq_true, if_false]
+    have hb' : b < (us.map (timeSlice Ops.rat L t')).length := by simpa using hb
+    simp [hab, List.getElem?_eq_getElem hb', hv]
+
+/-- dimension check of the velocities an event brings in -/
+def EvWF (L : List ℚ) : Ev ℚ → Prop
+  | .start _ _ v => v.length = L.length
+  | .endOfChain _ _ v => v.length = L.length
+  | _ => True
+
+theorem map_timeSlice_wf {L : List ℚ} {us : List (PUnit ℚ)} (h : WF L us) (t : Time ℚ) :
+    WF L (us.map (timeSlice Ops.rat L t)) := by
+  intro u hu
+  obtain ⟨w, hw, rfl⟩ := List.mem_map.mp hu
+  exact timeSlice_wfu L t w (h w hw)
+
+theorem step_wf (L : List ℚ) (us : List (PUnit ℚ)) (e : Ev ℚ) (h : WF L us) (he : EvWF L e) :
+    WF L (step Ops.rat L us e) := by
+  cases e with
+  | start t a v =>
+      exact forall_mem_modify _ _ _ h (fun u hu =>
+        ⟨(h u (List.mem_of_getElem? hu)).1, rfl, fun w hw => by cases hw; exact he⟩)
+  | keep t => exact map_timeSlice_wf h t
+  | snap t d x =>
+      intro u hu
+      obtain ⟨w, hw, rfl⟩ := List.mem_map.mp hu
+      have := map_timeSlice_wf h t w hw
+      split
+      · exact ⟨by simp [setCoord_length, this.1], this.2⟩
+      · exact this
+  | lift t b =>
+      have hsl := map_timeSlice_wf h t
+      simp only [step]
+      split
+      · exact hsl
+      · split
+        · exact hsl
+        · next a _ ua hua =>
+          split
+          · exact hsl
+          · have hwa := hsl ua (List.mem_of_getElem? hua)
+            refine forall_mem_modify _ _ _ (forall_mem_modify _ _ _ hsl ?_) ?_
+            · intro u hu
+              exact ⟨(hsl u (List.mem_of_getElem? hu)).1, hwa.2.1, hwa.2.2⟩
+            · intro u hu
+              refine stop_wfu u (forall_mem_modify _ _ _ hsl ?_ u (List.mem_of_getElem? hu))
+              intro u hu
+              exact ⟨(hsl u (List.mem_of_getElem? hu)).1, hwa.2.1, hwa.2.2⟩
+  | endOfChain t a v =>
+      have hsl := map_timeSlice_wf h t
+      simp only [step]
+      split
+      · exact hsl
+      · next a0 hact =>
+        split
+        · next haa =>
+          have haa : a0 = a := by simpa using haa
+          subst haa
+          refine forall_mem_modify _ _ _ hsl ?_
+          intro u hu
+          have hw := hsl u (List.mem_of_getElem? hu)
+          unfold activeIdx at hact
+          obtain ⟨hlt, hmv, -⟩ := List.findIdx?_eq_some_iff_getElem.mp hact
+          have : u = (us.map (timeSlice Ops.rat L t))[a0] := by
+            rw [List.getElem?_eq_getElem hlt] at hu; exact (Option.some.inj hu).symm
+          rw [← this] at hmv
+          refine ⟨hw.1, ?_, fun w' hw' => by cases hw'; exact he⟩
+          have := hw.2.1
+          simp only [isMoving] at hmv
+          simp [← this, hmv]
+        · refine forall_mem_modify _ _ _ (forall_mem_modify _ _ _ hsl ?_) ?_
+          · intro u hu; exact stop_wfu u (hsl u (List.mem_of_getElem? hu))
+          · intro u hu
+            have := forall_mem_modify (P := WFU L.length) stop _ a0 hsl
+              (fun u hu => stop_wfu u (hsl u (List.mem_of_getElem? hu))) u (List.mem_of_getElem? hu)
+            exact ⟨this.1, rfl, fun w' hw' => by cases hw'; exact he⟩
+
+/-! ### continuity -/
+
+theorem posAfter_of_rest (L : List ℚ) (e : Ev ℚ) (u : PUnit ℚ) (h : u.vel = none) : posAfter L e u = u.pos := by
+  cases e <;> simp [posAfter, timeSlice_of_rest, isMoving, h]
+
+theorem timeSlice_pos_cong {L : List ℚ} (t : Time ℚ) {u : PUnit ℚ} {v : List ℚ} {s : Time ℚ} (hL : PosBox L)
+    (hw : WFU L.length u) (hv : u.vel = some v) (hs : u.ts = some s) :
+    CongVec L (advance u.pos v (val t - val s)) (timeSlice Ops.rat L t u).pos := by
+  rw [timeSlice_of_moving L t u hv hs, ← sub_exact]
+  exact sliceVec_cong L u.pos v _ hL hw.1 (hw.2.2 v hv)
+
+theorem timeSlice_pos_inBox {L : List ℚ} (t : Time ℚ) {u : PUnit ℚ} {v : List ℚ} {s : Time ℚ} (hL : PosBox L)
+    (hw : WFU L.length u) (hv : u.vel = some v) (hs : u.ts = some s) :
+    InBox L (timeSlice Ops.rat L t u).pos := by
+  rw [timeSlice_of_moving L t u hv hs]
+  exact sliceVec_inBox L u.pos v _ hL hw.1 (hw.2.2 v hv)
+
+/-- what an event must satisfy so that it is no jump: a start finds every unit at rest; the coordinate a
+cell-boundary event writes is congruent (modulo the box length) to the time-sliced coordinate it overwrites -/
+def Smooth (L : List ℚ) (us : List (PUnit ℚ)) : Ev ℚ → Prop
+  | .start _ _ _ => ∀ u ∈ us, u.vel = none
+  | .snap t d x => ∀ u ∈ us, isMoving u = true →
+      ∀ (h : d < L.length) (h' : d < (timeSlice Ops.rat L t u).pos.length),
+        Cong L[d] (timeSlice Ops.rat L t u).pos[d] x
+  | _ => True
+
+theorem posAfter_cong {L : List ℚ} {us : List (PUnit ℚ)} {e : Ev ℚ} {u : PUnit ℚ} {v : List ℚ} {s : Time ℚ}
+    (hL : PosBox L) (hw : WFU L.length u) (hm : u ∈ us) (hsm : Smooth L us e)
+    (hv : u.vel = some v) (hs : u.ts = some s) :
+    CongVec L (advance u.pos v (val e.time - val s)) (posAfter L e u) := by
+  cases e with
+  | start t a w => rw [hsm u hm] at hv; cases hv
+  | keep t => exact timeSlice_pos_cong t hL hw hv hs
+  | lift t b => exact timeSlice_pos_cong t hL hw hv hs
+  | endOfChain t a w => exact timeSlice_pos_cong t hL hw hv hs
+  | snap t d x =>
+      have hmv : isMoving u = true := by simp [isMoving, hv]
+      simp only [posAfter, hmv, if_true, Ev.time]
+      refine (timeSlice_pos_cong t hL hw hv hs).trans ?_
+      exact setCoord_cong L _ d x (timeSlice_wfu L t u hw).1 (fun h h' => hsm u hm hmv h h')
+
+/-! ### the leg loop seen from the scheduler -/
+
+theorem time_le_trans {a b c : Time ℚ} (ha : Normalised a) (hb : Normalised b) (hc : Normalised c)
+    (h : Time.le a b = true) (h' : Time.le b c = true) : Time.le a c = true := by
+  rw [le_iff _ _ ha hb] at h; rw [le_iff _ _ hb hc] at h'; rw [le_iff _ _ ha hc]; exact le_trans h h'
+
+/-- One leg of the event loop (`mediator.run`), reduced to what matters for the order of the committed times.
+State: the time of the last commit and the multiset of live candidate times in the scheduler.
+The scheduler returns a minimal live candidate `m` (C06); the leg trashes a sub-multiset `removed` of the
+live candidates that contains `m`, keeps the others, and pushes new candidates, each normalised and not
+before `m` (C14 `add_ge`: they are `time stamp of the moving unit + non-negative displacement`, and that time
+stamp is the time of the last commit by the chain invariant). -/
+inductive Leg : Time ℚ × List (Time ℚ) → Time ℚ × List (Time ℚ) → Prop
+  | mk (now m : Time ℚ) (pending removed kept new : List (Time ℚ)) :
+      m ∈ pending → (∀ p ∈ pending, Time.le m p = true) → List.Perm pending (removed ++ kept) → m ∈ removed →
+      (∀ c ∈ new, Normalised c ∧ Time.le m c = true) → Leg (now, pending) (m, kept ++ new)
+
+/-- a run of the leg loop together with the list of committed times -/
+inductive Legs : Time ℚ × List (Time ℚ) → List (Time ℚ) → Time ℚ × List (Time ℚ) → Prop
+  | nil (s : Time ℚ × List (Time ℚ)) : Legs s [] s
+  | cons {s s' s'' : Time ℚ × List (Time ℚ)} {ts : List (Time ℚ)} : Leg s s' → Legs s' ts s'' → Legs s (s'.1 :: ts) s''
+
+/-- invariant of the leg loop: no live candidate lies before the last commit -/
+def LegInv (s : Time ℚ × List (Time ℚ)) : Prop :=
+  Normalised s.1 ∧ ∀ p ∈ s.2, Normalised p ∧ Time.le s.1 p = true
+
+theorem Leg.inv {s s' : Time ℚ × List (Time ℚ)} (h : Leg s s') (hi : LegInv s) :
+    LegInv s' ∧ Time.le s.1 s'.1 = true := by
+  cases h with
+  | mk now m pending removed kept new hm hmin hperm hrem hnew =>
+      obtain ⟨hn, hp⟩ := hi
+      refine ⟨⟨(hp m hm).1, ?_⟩, (hp m hm).2⟩
+      intro p hp'
+      rcases List.mem_append.mp hp' with hk | hk
+      · have : p ∈ pending := hperm.mem_iff.mpr (List.mem_append_right _ hk)
+        exact ⟨(hp p this).1, hmin p this⟩
+      · exact hnew p hk
+
+theorem Legs.sorted {s s' : Time ℚ × List (Time ℚ)} {ts : List (Time ℚ)} (h : Legs s ts s') (hi : LegInv s) :
+    (∀ x ∈ ts, Normalised x ∧ Time.le s.1 x = true) ∧ List.Pairwise (fun a b => Time.le a b = true) ts ∧ LegInv s' := by
+  induction h with
+  | nil s => exact ⟨by simp, List.Pairwise.nil, hi⟩
+  | cons hl _ ih =>
+      obtain ⟨hi', hle⟩ := hl.inv hi
+      obtain ⟨h1, h2, h3⟩ := ih hi'
+      refine ⟨?_, List.Pairwise.cons (fun x hx => (h1 x hx).2) h2, h3⟩
+      intro x hx
+      rcases List.mem_cons.mp hx with rfl | hx
+      · exact ⟨hi'.1, hle⟩
+      · exact ⟨(h1 x hx).1, time_le_trans hi.1 hi'.1 (h1 x hx).1 hle (h1 x hx).2⟩
+
+/-! ### concrete data for the non-vacuity examples of `JF/Props/C07.lean` -/
+namespace Ex
+/-- a 4 × 3 box -/
+def L0 : List ℚ := [4, 3]
+/-- three point masses at rest -/
+def us0 : List (PUnit ℚ) := [⟨[1, 1], none, none⟩, ⟨[3, 2], none, none⟩, ⟨[0, 5/2], none, none⟩]
+def t0 : Time ℚ := ⟨0, 0⟩
+def t1 : Time ℚ := ⟨1, 1/2⟩
+def t2 : Time ℚ := ⟨3, 0⟩
+def t3 : Time ℚ := ⟨3, 1/4⟩
+def t4 : Time ℚ := ⟨5, 0⟩
+/-- start unit 0 along x; sample; unit 0 reaches the upper cell boundary `x = 4 ≡ 0`; it hits unit 1; the chain ends
+and unit 2 goes on along y -/
+def evs : List (Ev ℚ) :=
+  [.start t0 0 [1, 0], .keep t1, .snap t2 0 0, .lift t3 1, .endOfChain t4 2 [0, 1]]
+theorem posBox : PosBox L0 := by intro l hl; simp [L0] at hl; rcases hl with rfl | rfl <;> norm_num
+theorem wf0 : WF L0 us0 := by intro u hu; simp [us0] at hu; rcases hu with rfl | rfl | rfl <;> simp [WFU, L0]
+theorem inBox0 : ∀ u ∈ us0, InBox L0 u.pos := by
+  intro u hu; simp [us0] at hu; rcases hu with rfl | rfl | rfl <;> norm_num [InBox, L0]
+theorem rest0 : ∀ u ∈ us0, u.vel = none := by
+  intro u hu; simp [us0] at hu; rcases hu with rfl | rfl | rfl <;> rfl
+end Ex
+
 end Kin
 end JF
